@@ -4,6 +4,8 @@ import io
 
 import dns.btreezone
 import dns.edns
+import struct
+
 import dns.exception
 import dns.message
 import dns.name
@@ -43,7 +45,7 @@ ASSUMPTIONS = [
     "violation = exception that is not a dns.exception.DNSException subclass (documented ValueError/KeyError raised from the zone-semantic layer excepted); the narrow FormError / SyntaxError family is demanded only where the API promises it (dns.rdata.from_wire / from_text)",
     "$GENERATE ranges are capped by the generator (a documented huge loop is not a hang); inputs <= 64 KiB",
 ]
-REQUIRED = ["ep.message.from_wire", "ep.name.from_wire", "ep.rdata.from_wire", "ep.edns.option_from_wire", "ep.name.from_text", "ep.rdata.from_text",
+REQUIRED = ["mon.structured_message_mutations", "ep.message.from_wire", "ep.name.from_wire", "ep.rdata.from_wire", "ep.edns.option_from_wire", "ep.name.from_text", "ep.rdata.from_text",
             "ep.ttl.from_text", "ep.zone.from_text", "ep.zonefile.read_rrsets", "ep.message.from_text", "ep.rrset.from_text", "mon.rerender", "mon.continue_on_error"]
 BUDGET = {"quick": 50.0, "thorough": 480.0}
 
@@ -202,6 +204,54 @@ class Monitor:
 
 
 # ------------------------------------------------------------------------------------------ wire entry points
+
+
+def structured_message_mutation(rng, w):
+    """field-level changes to a well-formed message: another opcode (UPDATE in particular), section counts moved around or
+    zeroed while the records stay, the class or type of one record replaced (ANY, NONE, OPT, TSIG, ...)"""
+    from vlib.ref import wirewalk as WW
+
+    b = bytearray(w)
+    if len(b) < 12:
+        return bytes(b)
+    for _ in range(rng.choice((1, 1, 2, 3))):
+        k = rng.choice(("opcode", "opcode-update", "counts", "class", "type"))
+        if k == "opcode":
+            b[2] = (b[2] & 0x87) | (rng.randrange(16) << 3)
+        elif k == "opcode-update":
+            b[2] = (b[2] & 0x87) | (5 << 3)
+        elif k == "counts":
+            c = list(struct.unpack("!HHHH", b[4:12]))
+            how = rng.choice(("zero-first", "zero-any", "shift", "swap", "plus"))
+            if how == "zero-first":
+                c[1] += c[0]
+                c[0] = 0
+            elif how == "zero-any":
+                c[rng.randrange(4)] = 0
+            elif how == "shift":
+                i = rng.randrange(3)
+                c[i + 1] += c[i]
+                c[i] = 0
+            elif how == "swap":
+                i, j = rng.randrange(4), rng.randrange(4)
+                c[i], c[j] = c[j], c[i]
+            else:
+                c[rng.randrange(4)] += 1
+            b[4:12] = struct.pack("!HHHH", *[min(x, 65535) for x in c])
+        else:
+            try:
+                walk = WW.walk(bytes(b))
+            except Exception:
+                continue
+            recs = [r for sec in walk["records"] for r in sec]
+            if not recs:
+                continue
+            labels, t, c, ttl, off, rdlen = rng.choice(recs)
+            if k == "class":
+                b[off - 8:off - 6] = struct.pack("!H", rng.choice((255, 254, 1, 3, 0, 65535)))
+            else:
+                b[off - 10:off - 8] = struct.pack("!H", rng.choice((41, 250, 249, 6, 255, 252, 251, 0, 46)))
+    return bytes(b)
 
 
 def fuzz_message_wire(mon, rng, w, tag, keyring=None):
@@ -416,6 +466,9 @@ def run(spec, ctx):
             r = rng.random()
             if r < 0.08:
                 fw = w  # the valid artefact itself (signed ones without a keyring must be recorded, not raised, in continue-on-error mode)
+            elif r < 0.3:
+                fw = structured_message_mutation(rng, w)
+                ctx.count("mon.structured_message_mutations")
             elif r < 0.8:
                 fw, mk = mutate_bytes(rng, w)
                 if rng.random() < 0.3:
